@@ -264,6 +264,19 @@ func (t *tailBuffer) String() string { return string(t.b) }
 // AllocBudget is the allowed TotalAlloc delta for an input of n bytes.
 func AllocBudget(n int, c0 uint64) uint64 { return c0 + 256*uint64(n) }
 
+// ExtraBudget, if set by a package's harness, adds an input-dependent fixed cost to the budget: a cost
+// the decoder pays per complete unit that HAS arrived (e.g. one decompressor instance per completed
+// transmission), which is not "memory in proportion to a length field whose bytes have not arrived".
+var ExtraBudget func(in []byte) uint64
+
+func allocBudgetFor(in []byte, c0 uint64) uint64 {
+	b := AllocBudget(len(in), c0)
+	if ExtraBudget != nil {
+		b += ExtraBudget(in)
+	}
+	return b
+}
+
 // JudgeChild turns a child result into a failure (tag, message) or ("", "").
 func JudgeChild(r *ChildResult, input []byte, c0 uint64, recoveredPanicOK bool) (tag, msg string) {
 	in := input
@@ -279,8 +292,8 @@ func JudgeChild(r *ChildResult, input []byte, c0 uint64, recoveredPanicOK bool) 
 		return "", ""
 	case r.Panic != "" && !recoveredPanicOK:
 		return "c04.panic", fmt.Sprintf("panic on input %x… (%d bytes): %s", in, len(input), tailOf(r.Panic, 1200))
-	case r.Alloc > AllocBudget(len(input), c0):
-		return "c04.alloc", fmt.Sprintf("%d bytes allocated for an input of %d bytes %x… (budget %d)", r.Alloc, len(input), in, AllocBudget(len(input), c0))
+	case r.Alloc > allocBudgetFor(input, c0):
+		return "c04.alloc", fmt.Sprintf("%d bytes allocated for an input of %d bytes %x… (budget %d)", r.Alloc, len(input), in, allocBudgetFor(input, c0))
 	}
 	return "", ""
 }
